@@ -460,14 +460,10 @@ class Store:
             The new default value.
         """
         defaults_conflict = False
-        if self.default is not None:
-            self_default_comp = self.default
-            new_default_comp = new_default
-            if isinstance(self_default_comp, np.ndarray):
-                self_default_comp = self.default.tolist()
-            if isinstance(new_default_comp, np.ndarray):
-                new_default_comp = new_default.tolist()
-            defaults_conflict != (self_default_comp == new_default_comp)
+        # (The defaults were compared here in a statement without effect,
+        # `defaults_conflict != (a == b)`; evaluating == on a dict, list
+        # or tuple holding arrays raised "truth value of an array ... is
+        # ambiguous" for two identical declarations.)
         if defaults_conflict:
             if (
                 not isinstance(new_default, np.ndarray)
